@@ -4,6 +4,7 @@ from conductor.utils.run_options import OptionValue
 from conductor.errors import (
     ExperimentGroupDuplicateName,
     ExperimentGroupInvalidExperimentInstance,
+    InvalidTaskParameterType,
 )
 
 
@@ -21,6 +22,12 @@ def run_experiment_group(
     chain_experiments: bool = False,
     deps: Optional[Sequence[str]] = None,
 ) -> None:
+    if not isinstance(chain_experiments, bool):
+        raise InvalidTaskParameterType(
+            parameter_name="chain_experiments",
+            type_name=bool.__name__,
+            task_type_name="run_experiment_group",
+        )
     task_deps = deps if deps is not None else []
     relative_experiment_identifiers = []
     prev_experiment_identifier: Optional[str] = None
